@@ -135,6 +135,9 @@ def parse(wire, reqs):
         probs.extend(p)
         out.append(r)
         if r.get("interim"):
+            if tuple(reqs[i].get("version") or (1, 1)) < (1, 1):
+                # RFC 9110 15.2: a server MUST NOT send a 1xx response to an HTTP/1.0 client
+                probs.append(("interim-response-to-http-1.0", repr(r.get("code"))))
             continue
         i += 1
         if r["code"] is None or r["complete"] is not True:
